@@ -7,7 +7,14 @@
    abstraction function is a C lexer; the only places where the lexer matters are
    identifiers that spell a keyword owning a token of its own (`const`, `return`),
    so every word the printer writes goes through [lex_word].  Lexical validity of
-   identifiers (character set, non-emptiness) is below this model. *)
+   identifiers (character set, non-emptiness) is below this model.  White space is
+   dropped: every place where the printer omits a blank has punctuation on one side.
+
+   Not modelled: the Err returns (unsupported IntKind / TypeKind, non-Function items),
+   the variadic branch of `impl CSerialize for Function` (wrap_as_variadic = Some),
+   TypeKind::ResolvedTypeRef and unnamed TypeKind::Alias (both recurse into the
+   referenced type with the same stack, a const ResolvedTypeRef after writing "const ";
+   [cty] is the type after that resolution). *)
 From Coq Require Import NArith List Bool String Ascii DecimalString.
 Import ListNotations.
 Open Scope string_scope.
@@ -371,7 +378,17 @@ Fixpoint N_list_eqb (a b : list N) : bool :=
 (* walking down from the declared object:
      named : is there a name at the bottom of the stack
      stars : has a pointer been pushed on the way
-     ds    : the array lengths met on the way, outermost first *)
+     ds    : the array lengths met on the way, outermost first
+   The class is exact (Properties.decl_roundtrip_exact): under the side conditions the
+   output reads back as the type iff simple_go says true.
+     - an array is fine as long as no pointer has been pushed (arrays of pointers are
+       right, pointers to arrays are not);
+     - the array lengths must read the same in both directions, because "[a][b]" is
+       written "[b][a]";
+     - a function type must not be const ("const " would be popped in front of the "*"),
+       needs a pointer or a name for its parentheses, must not sit under an array (the
+       array suffix would land after the parameter list), and its return type must be
+       pointers over a base type (it is written with an empty stack, in front). *)
 Fixpoint simple_go (named stars : bool) (ds : list N) (t : cty) : bool :=
   match t with
   | CBase _ _ => N_list_eqb ds (rev ds)          (* "[a][b]" comes out as "[b][a]" *)
@@ -526,3 +543,168 @@ Definition reads_ok (t : cty) : Prop :=
     2 * List.length (serialize t (stack cs on) ++ brks (rev ds)) + 2 <= f ->
     reads td f (serialize t (stack cs on) ++ brks (rev ds) ++ rest)
           on (arrays ds (ptrs cs t)) rest.
+
+Definition ser_param (p : option string * cty) : list tok :=
+  serialize (snd p) (param_stack (fst p)).
+
+(* the two halves of the wrapper text, around the "{" *)
+Definition wrapper_head (name suffix : string) (ret : cty) (args : list (option string * cty))
+  : list tok :=
+  serialize ret [] ++ [lex_word (String.append name suffix); TLPar] ++
+  serialize_args (name_args 0 args) ++ [TRPar].
+
+Definition wrapper_body (name : string) (ret : cty) (args : list (option string * cty))
+  : list tok :=
+  (if is_void ret then [] else [TReturn]) ++
+  [lex_word name; TLPar] ++
+  sep_join [TComma] (map (fun p => [lex_word (fst p)]) (name_args 0 args)) ++
+  [TRPar; TSemi; TRBrace].
+
+(* the parameters as the wrapper declares them: all named *)
+Definition named_args (args : list (option string * cty)) : list (option string * cty) :=
+  map (fun p => (Some (fst p), snd p)) (name_args 0 args).
+
+(* ------------------------------------------------------------------ what the output denotes, for EVERY type *)
+
+Definition map_opt {A B} (f : A -> option B) : list A -> option (list B) :=
+  fix go (l : list A) : option (list B) :=
+    match l with
+    | [] => Some []
+    | x :: r =>
+        match f x, go r with
+        | Some y, Some ys => Some (y :: ys)
+        | _, _ => None
+        end
+    end.
+
+(* The type the reader finds in the printer's output (None: the output is not a
+   declaration).  Same walk as the printer: cs = pointers pushed so far (top first),
+   ds = array lengths met so far (outermost first).
+     - down to a base type, every array ends up OUTSIDE every pointer, and the array
+       lengths come out in reverse order;
+     - down to a function type, the arrays met on the way end up in the RETURN type;
+       nothing is readable if the function type is const, if there is neither a pointer
+       nor a name to put in the parentheses, or if the return type is anything but
+       pointers over a base type. *)
+Fixpoint printed_as (named : bool) (cs : list bool) (ds : list N) (t : cty) : option cty :=
+  match t with
+  | CBase _ _ => Some (arrays (rev ds) (ptrs cs t))
+  | CPtr c t' => printed_as named (c :: cs) ds t'
+  | CArr t' n => printed_as named cs (ds ++ [n]) t'
+  | CFun c r args =>
+      if c || (is_nil cs && negb named) || negb (ptr_base r) then None
+      else
+        match map_opt (fun p =>
+                 match printed_as (is_some (fst p)) [] [] (snd p) with
+                 | Some T => Some (fst p, T)
+                 | None => None
+                 end) args with
+        | Some args' => Some (ptrs cs (CFun false (arrays (rev ds) r) args'))
+        | None => None
+        end
+  end.
+
+Definition rd_param (p : option string * cty) : option (option string * cty) :=
+  match printed_as (is_some (fst p)) [] [] (snd p) with
+  | Some T => Some (fst p, T)
+  | None => None
+  end.
+
+(* specifiers + declarator, as one step of the reader *)
+Definition p_decl (td : list string) (f : nat) (ts : list tok)
+  : option ((option string * cty) * list tok) :=
+  match p_spec td ts with
+  | None => None
+  | Some (b, r) =>
+      match p_dtor td f r with
+      | None => None
+      | Some (d, r') => Some (apply_dtor d b, r')
+      end
+  end.
+
+(* the stack as the Function arm pops it *)
+Definition cst (c : bool) (st : list sitem) : list sitem := if c then SConst :: st else st.
+
+(* heads that cannot start a specifier list *)
+Definition bad_spec_head (td : list string) (ts : list tok) : bool :=
+  match ts with
+  | TId k :: _ => negb (is_tag_kw k) && negb (is_kw k) && negb (mem k td)
+  | TConst :: _ => false
+  | _ => true
+  end.
+
+(* the full characterisation, as an invariant over the walk *)
+Definition reads_char (t : cty) : Prop :=
+  forall td cs on ds rest f,
+    wf_ty td t = true -> wf_oname td on = true -> follow_ok rest = true ->
+    2 * List.length (serialize t (stack cs on) ++ brks (rev ds) ++ rest) + 2 <= f ->
+    p_decl td f (serialize t (stack cs on) ++ brks (rev ds) ++ rest) =
+    match printed_as (is_some on) cs ds t with
+    | Some T => Some ((on, T), rest)
+    | None => None
+    end.
+
+(* a return type that is not pointers-over-base makes the whole declaration unreadable *)
+Definition ret_rejected (r : cty) : Prop :=
+  forall td cs1 ds1 c cs on Y f,
+    wf_ty td r = true -> wf_oname td on = true ->
+    ptr_base r = false \/ ds1 <> [] ->
+    2 * List.length (serialize r (stack cs1 None) ++ brks (rev ds1) ++
+                     TLPar :: pop_all (cst c (stack cs on)) ++ TRPar :: Y) + 2 <= f ->
+    p_decl td f (serialize r (stack cs1 None) ++ brks (rev ds1) ++
+                 TLPar :: pop_all (cst c (stack cs on)) ++ TRPar :: Y) = None.
+
+(* the declarator spine of a type *)
+Inductive frame := FPtr (c : bool) | FArr (n : N).
+
+Fixpoint spine (t : cty) : list frame :=
+  match t with
+  | CPtr c t' => FPtr c :: spine t'
+  | CArr t' n => FArr n :: spine t'
+  | _ => []
+  end.
+
+Fixpoint core (t : cty) : cty :=
+  match t with
+  | CPtr _ t' => core t'
+  | CArr t' _ => core t'
+  | _ => t
+  end.
+
+Fixpoint plug (sp : list frame) (k : cty) : cty :=
+  match sp with
+  | [] => k
+  | FPtr c :: r => CPtr c (plug r k)
+  | FArr n :: r => CArr (plug r k) n
+  end.
+
+Fixpoint sp_arrs (sp : list frame) : list N :=
+  match sp with [] => [] | FArr n :: r => n :: sp_arrs r | FPtr _ :: r => sp_arrs r end.
+
+Fixpoint sp_ptrs (sp : list frame) : list bool :=
+  match sp with [] => [] | FPtr c :: r => c :: sp_ptrs r | FArr _ :: r => sp_ptrs r end.
+
+(* no array below a pointer *)
+Fixpoint arrs_ok (stars : bool) (sp : list frame) : bool :=
+  match sp with
+  | [] => true
+  | FPtr _ :: r => arrs_ok true r
+  | FArr _ :: r => negb stars && arrs_ok false r
+  end.
+
+(* ------------------------------------------------------------------ values used in the examples *)
+
+Local Open Scope N_scope.
+
+Definition ex_int := CBase ["int"] false.
+Definition ex_char := CBase ["char"] false.
+Definition ex_void := CBase ["void"] false.
+(* const unsigned long * ( *const cb)(struct S *s, void ( * )(void), char [4], int [3][3]) *)
+Definition ex_cb : cty :=
+  CPtr true (CFun false (CPtr false (CBase ["unsigned"; "long"] true))
+    [(Some "s", CPtr false (CBase ["struct"; "S"] false));
+     (None, CPtr false (CFun false ex_void []));
+     (None, CArr ex_char 4);
+     (Some "m", CArr (CArr ex_int 3) 3)]).
+Definition ex_args : list (option string * cty) :=
+  [(Some "a", ex_int); (None, ex_char); (Some "b", CPtr false ex_void); (None, ex_int)].
